@@ -406,7 +406,7 @@ func parent(prop, tier string) int {
 				strconv.Itoa(w), strconv.Itoa(nw), strconv.FormatInt(budget, 10), outFile)
 			cmd.Stderr = os.Stderr
 			cmd.Stdout = os.Stderr
-			cmd.Env = append(os.Environ(), "GOMAXPROCS=2")
+			cmd.Env = append(os.Environ(), "GOMAXPROCS=1")
 			err := cmd.Run()
 			results[w].err = err
 			if err != nil {
@@ -688,6 +688,9 @@ func worker(args []string) int {
 		t0 := time.Now()
 		res, infra := ExecRun(sc, params, prop, src, false)
 		spent[best] += time.Since(t0)
+		if d := time.Since(t0); d > 5*time.Second {
+			fmt.Fprintf(os.Stderr, "slow run: scenario=%s params=%s run_seed=%d took %.1fs (%d draws)\n", p.Scenario, ParamString(params), runSeed, d.Seconds(), src.Len())
+		}
 		key := p.Scenario + "{" + ParamString(p.Params) + "}"
 		out.PartRuns[key]++
 		out.Runs++
